@@ -27,6 +27,15 @@ fn injected() -> io::Error {
     io::Error::new(KINDS[N.fetch_add(1, Ordering::Relaxed) % KINDS.len()], "injected fault")
 }
 
+/// the injected failure of a flush or a seek: neither std nor grenad retries those, so ErrorKind::Interrupted is
+/// one more kind the failure may carry (a flush that failed has not happened, whatever the kind says)
+fn injected_no_retry() -> io::Error {
+    use std::sync::atomic::{AtomicUsize, Ordering};
+    static N: AtomicUsize = AtomicUsize::new(0);
+    const KINDS: [io::ErrorKind; 4] = [io::ErrorKind::Interrupted, io::ErrorKind::Other, io::ErrorKind::Interrupted, io::ErrorKind::WriteZero];
+    io::Error::new(KINDS[N.fetch_add(1, Ordering::Relaxed) % KINDS.len()], "injected fault")
+}
+
 /// shared fault/schedule controller: a PRNG-driven or explicit schedule, plus one optional fault
 pub struct Ctl {
     pub explicit: RefCell<Vec<Resp>>, // consumed from the front (stored reversed)
@@ -134,7 +143,7 @@ impl Write for Sched {
             if c.oneshot.get() {
                 c.fault.set(None);
             }
-            return Err(injected());
+            return Err(injected_no_retry());
         }
         c.committed.set(c.bytes_written.get());
         Ok(())
@@ -165,7 +174,7 @@ impl Seek for Sched {
         c.seeks.set(k + 1);
         if c.fault.get() == Some((3, k)) {
             c.fire();
-            return Err(injected());
+            return Err(injected_no_retry());
         }
         if let SeekFrom::Start(_) = pos {
             c.start_seeks.set(c.start_seeks.get() + 1);
